@@ -14,7 +14,7 @@ OPEN_SCOPES = ["string_scope", "list_scope"]
 CASES_PER_SHARD = 120
 SHARD_BYTES = 150_000
 ENTRY = "cassis.typesystem.TypeSystem.create_type/get_type/contains_type/subsumes/is_instance_of, Type.children/descendants/subsumes"
-SHARD_JOBS = 12
+SHARD_JOBS = 14
 RULE = (
     "histories of create_type (parents: built-in, user, short names, final, unknown, ambiguous; duplicate user and predefined "
     "names), create_feature and instantiation applied to a fresh TypeSystem(); quick: every history of length <= 2 over a "
@@ -152,11 +152,11 @@ def generate(rng, tier):
         for L in (1, 2):
             for k, h in enumerate(itertools.product(ALPHABET, repeat=L)):
                 yield _mk([dict(o) for o in h], full=(k % 100 == 7))
-        n_s = {"quick": 260, "thorough": 6000}[tier]
+        n_s = {"quick": 200, "thorough": 6000}[tier]
         for k in range(n_s):
             L = 3 if k % 2 == 0 else 4
             yield _mk([dict(rng.choice(ALPHABET)) for _ in range(L)], rng, full=(k % 100 == 7))
-    n_r = {"quick": 260, "thorough": 5000, "search": 3000}[tier]
+    n_r = {"quick": 200, "thorough": 5000, "search": 3000}[tier]
     for k in range(n_r):
         sc = _random_history(rng, big=(k % 3 == 0))
         if k % 100 == 7:
